@@ -34,6 +34,9 @@ CHECKS = {
  "C15": dict(cat="exploration", tech="Expr.v exact model of ir::Expr (all public ops): structural equality of results + independent arithmetic oracle on random expression programs",
    text="Expression programs over a register file (val,var,add,mul,neg,half,normalize,symb_evaluate and all decompositions), four widths, coefficients biased to the half-modulus: the implementation's exact part lists and values must equal the extracted Coq model, and values must satisfy an independent arithmetic oracle (homomorphism, recomposition).",
    note="Homomorphism theorems (eval_add, eval_mul, eval_normalize, ...) not proved yet; until then exploration with a Coq-defined executable model.", ref="§4 C15"),
+ "C16": dict(cat="proof", tech="regenerated flag table proved equal to the specified table (translator over src/bin/hpbf.rs) + Coq theorems on the argument loop + binary correspondence",
+   text="tools/cli_translate.py re-derives the flag table, defaults, width dispatch, executor selection and mode order from src/bin/hpbf.rs on every run; Coq proves it equal to the specified table (table_is_spec) and, for every table and every argument list, that the program text is the in-order concatenation of files and bare arguments, that the last flag of each class wins, and what is decided (help / file error / run with width, backend, level, mode, limit). The release binary is run on generated command lines and compared with the model composed with the canonical semantics or the library rendering.",
+   note="Trusted: the regex translator (fails loudly when the structure changes), the binary harness. --time and llvm flags not compared.", ref="§4 C16"),
  "C17": dict(cat="fault_enumeration", tech="failing-allocator child processes enumerating every growth request; Coq theorem on Tape.v with allocation oracle",
    text="Every growth request of random tape histories and of roaming programs on all backends is failed in turn (global allocator returning null); the process must end by SIGABRT/panic. Model side: C17_alloc_fail_safe/_stops proved for all histories and oracles.",
    note="The theorem is about the Tape.v model; the implementation's abort path is observed, not proved.", ref="§4 C17"),
@@ -46,6 +49,9 @@ CHECKS = {
  "C12": dict(cat="exploration", tech="Parse.v exact model of Program::parse: structural IR equality and error kind/position vs the property's spec; comment-insensitivity pairs; executors' acceptance",
    text="Random Unicode strings (all planes), comment interleavings, depth-500 nesting and one-edit unbalancings: Program::parse must accept iff balanced with the specified error kind/char position, produce exactly the IR of the Coq model Parse.v, be insensitive to non-command characters, and every executor must accept/reject/behave accordingly without panicking.",
    note="Theorems parse_accepts_iff / parse_error_spec not proved yet; until then exploration with a Coq-defined executable model.", ref="§4 C12"),
+ "C13": dict(cat="other", tech="Coq theorem: every operand shape left by (modelled) parameter reordering is covered by both selectors; determinism/reuse/compile-time monitored",
+   text="Partial. Proved: jit_covers_all / int_covers_all over Forms.v (no unimplemented! arm reachable after reordering), tied by compiling every normalised shape in both selectors and by checking generated bytecode is a fixed point of the model's reordering. Monitored only: hash-seed/history independence of printed IR, bytecode and machine code (within a process, across processes, across profiles), executor reuse on fresh contexts, caught panics in create() (nesting depth 300), compile time on size-doubling families.",
+   note="Determinism, reuse and growth are observations of the running process; only the unimplemented!-unreachability slice is a theorem.", ref="§4 C13"),
  "C14": dict(cat="proof", tech="Coq proof (Cell.v, Props/C14.v) + differential correspondence model<->CellType",
    text="Universal Coq theorems (all widths w>=1, all operands) for wrapping_div (least solution / none), wrapping_inv, wrapping_pow and the conversions, about a hand-written Gallina model mirroring src/lib.rs; the model is tied to the current source on every run by running the extracted model and the public CellType methods (debug and release) on the same cases, exhaustively at 8 bits.",
    note="Trusted: Coq kernel, extraction (ExtrOcamlBasic), ocaml/driver.ml, harness; Cell.v is hand-written (modelled, tied by correspondence). No axioms.", ref="§4 C14"),
